@@ -35,6 +35,16 @@ Definition run_check (n : netlist) (c : sx) : res sx :=
                                       end) links;
       do cnt <- sx_nat cnt;
       Ok (L [A "C06"; fails_to_sx (chk_C06 n links cnt)])
+  | L [A "C08"; ports; nis; cfgs] =>
+      do ports <- sx_listof sx_port ports;
+      do nis <- sx_listof (fun x => match x with
+                                    | L [A nm; fl; ax; A en] =>
+                                        do fl <- sx_listof sx_flag fl; do ax <- sx_listof (sx_kv sx_str) ax;
+                                        Ok {| ne_name := nm; ne_flags := fl; ne_axi := ax; ne_enum := en |}
+                                    | _ => Err "ni expectation"
+                                    end) nis;
+      do cfgs <- sx_listof (sx_kv (sx_listof (sx_kv sx_Z))) cfgs;
+      Ok (L [A "C08"; fails_to_sx (chk_C08 n ports nis cfgs)])
   | L [A "C07"; names] => do names <- sx_listof sx_str names; Ok (L [A "C07"; fails_to_sx (chk_C07 n names)])
   | _ => Err "unknown check"
   end.
